@@ -187,6 +187,29 @@ func TestVerif_C15_LedgerPairs(t *testing.T) {
 		for i := 1; i < len(variants); i++ {
 			c15lOwnBlock(rt, w, nodes[i], rich, variants[i].txn(rich, other, app))
 		}
+		// ---- the states really differ: fingerprint of everything the variants can touch, looked up at the fork round
+		state := func(n *engcNode) string {
+			var sb strings.Builder
+			for _, name := range []string{"ab", "a", "ac"} {
+				v, err := n.L.LookupKv(forkRound, engcBoxKey(app, name))
+				fmt.Fprintf(&sb, "box %s=%x present=%v err=%v;", name, v, v != nil, err)
+			}
+			res, err := n.L.LookupApplication(forkRound, rich, app)
+			if err != nil || res.AppParams == nil {
+				rt.Fatalf("HARNESS: %s LookupApplication: %v", n.Name, err)
+			}
+			fmt.Fprintf(&sb, "global=%v;", res.AppParams.GlobalState)
+			for _, addr := range []basics.Address{rich, other, app.Address()} {
+				d, _, err := n.L.LookupWithoutRewards(forkRound, addr)
+				fmt.Fprintf(&sb, "acct=%+v err=%v;", d, err)
+			}
+			return sb.String()
+		}
+		// looked up now: the fork round is the latest round of every ledger
+		states := make([]string, len(nodes))
+		for i, n := range nodes {
+			states[i] = state(n)
+		}
 		// ---- empty blocks until every ledger has the first-stage record of accounts round forkRound
 		commit := make([]*c15lCommitment, len(nodes))
 		grab := func() bool {
@@ -224,27 +247,9 @@ func TestVerif_C15_LedgerPairs(t *testing.T) {
 			rt.Fatalf("HARNESS: reference ledger root %s, model root %v (%v)", commit[0].Root, want, err)
 		}
 
-		// ---- the states really differ: fingerprint of everything the variants can touch, looked up at the fork round
-		state := func(n *engcNode) string {
-			var sb strings.Builder
-			for _, name := range []string{"ab", "a", "ac"} {
-				v, err := n.L.LookupKv(forkRound, engcBoxKey(app, name))
-				fmt.Fprintf(&sb, "box %s=%x present=%v err=%v;", name, v, v != nil, err)
-			}
-			res, err := n.L.LookupApplication(forkRound, rich, app)
-			if err != nil || res.AppParams == nil {
-				rt.Fatalf("HARNESS: %s LookupApplication: %v", n.Name, err)
-			}
-			fmt.Fprintf(&sb, "global=%v;", res.AppParams.GlobalState)
-			for _, addr := range []basics.Address{rich, other, app.Address()} {
-				d, _, err := n.L.LookupWithoutRewards(forkRound, addr)
-				fmt.Fprintf(&sb, "acct=%+v err=%v;", d, err)
-			}
-			return sb.String()
-		}
-		refState := state(nodes[0])
+		refState := states[0]
 		for i := 1; i < len(variants); i++ {
-			st := state(nodes[i])
+			st := states[i]
 			differs := st != refState
 			fp := strings.Join(w.History, "|") + "|" + variants[i].String()
 			vk.Case(differs, fp)
